@@ -16,6 +16,15 @@ CLAIMED["C14"] = dict(
    note="Bounds: streams <= 7 bytes quick / <= 9 thorough, buffers <= 5 / <= 7, <= 2 packets in round trips; lengths {255..131072} listed. Trusted: encoder (validated natively per run), z3, net.Conn Read contract (1..len(p) bytes or error). Outside: activeTCPConn goroutines, OS TCP, concurrency.",
    ref="DESIGN.md §5 C14")
 
+CLAIMED["C05"] = dict(
+   text="One authenticated Binding request is pushed through the real handleInbound/handleInboundRequest/AttrControl.GetFrom/handleRoleConflict/setSelector/stun.Build path with both 64-bit tie-breakers symbolic; z3 decides the RFC 8445 §7.3.1.1 decision table (keep+487 vs switch+silence), the shape of the 487 reply, the absence of any check side effect on conflict, and the pairwise exactly-one-switches lemma for all 2^128 tie-breaker pairs.",
+   note="Bounds: 1 local + 1 remote UDP host candidate, full agent, attribute kinds none/controlling/controlled/both. Trusted: encoder (validated natively per run), z3, MESSAGE-INTEGRITY as an injective-in-key contract, CRC uninterpreted. Outside: interleavings between two live agents, 'after which C01 holds'.",
+   ref="DESIGN.md §5 C05")
+CLAIMED["C02"] = dict(
+   text="Single-step frame lemmas: one STUN message of any class/12-bit method with symbolic USERNAME bytes, integrity key kind, transaction id, priority and source address is run through the real Agent.handleInbound from a partly symbolic agent pre-state (pair states/flags, selection, 0..2 outstanding transactions with symbolic id/age/destination/transport); z3 proves on every path that unauthenticated or mismatched messages change no observable (datagrams, candidates, pairs, selection, state, role, timestamps, callbacks, transactions), that a signed response changes pair state only for an outstanding same-transport same-address transaction and only on its own pair, and that indications only refresh a known remote. A second harness runs the real Restart and replays old-generation messages.",
+   note="Bounds: quick 1+1 candidates, thorough 2+2 and lite; UDP host candidates; authenticated-request sources are concrete (prflx creation formats the address). Trusted: encoder (validated natively per run), z3, integrity contract (tag injective in key), taskloop.Run contract (C10 assumed), clock readings within a step <= 1 ms apart. Outside: bytes->Decode (pion/stun), TCP candidates, IPv6 zones.",
+   ref="DESIGN.md §5 C02")
+
 NOT_APPLICABLE = {
  "C01": "needs two live agents, a symbolic network scheduler and a fairness (liveness) argument; a sequential encoder of single functions cannot express it (its safety half is covered by the C02/C03 lemmas)",
  "C08": "termination / unblocking of blocked goroutines and a goroutine census: no scheduler or channel model in a sequential SSA encoder",
@@ -24,10 +33,8 @@ NOT_APPLICABLE = {
 }
 
 NOT_BUILT = {
- "C02": "check not built yet in this round (planned in DESIGN.md §5); not claimed",
  "C03": "check not built yet in this round (planned in DESIGN.md §5); not claimed",
  "C04": "check not built yet in this round (planned in DESIGN.md §5); not claimed",
- "C05": "check not built yet in this round (planned in DESIGN.md §5); not claimed",
  "C06": "check not built yet in this round (planned in DESIGN.md §5); not claimed",
  "C07": "check not built yet in this round (planned in DESIGN.md §5); not claimed",
  "C09": "check not built yet in this round (planned in DESIGN.md §5); not claimed",
